@@ -8,6 +8,7 @@
 #include "storage.h"
 #include "birthday.h"
 #include "features.h"
+#include "c16_gen.h"
 
 struct seed_in { uint8_t secret[19]; unsigned birthday, features; unsigned checksum; };
 
@@ -102,6 +103,7 @@ void k7_keygen(void) {
     VASSERT(L_rand_calls == 0 && L_time_calls == 0 && L_alloc_calls == 0 && L_free_calls == 0
         && L_nfc_calls == 0 && L_nfkd_calls == 0, "K7 no other dependency is consulted");
     VASSERT(seed_eq(&d, &d0), "K7 key derivation does not modify the seed");
+    C16_CHECK(polyseed_keygen, "C16 every temporary aggregate of polyseed_keygen (other than the public salt) is wiped");
     FRAME_END(&fr);
     VEND();
 }
@@ -193,6 +195,7 @@ void k8_crypt(void) {
     VASSERT(wipes_of_size(sizeof(gf_poly)) >= 1, "K8 polynomial temporary wiped");
     VASSERT(wipes_of_size(32) >= 1, "K8 mask wiped");
     VASSERT(wipes_of_size(sizeof(polyseed_str)) >= 1, "K8 normalised password wiped");
+    C16_CHECK(polyseed_crypt, "C16 every temporary aggregate of polyseed_crypt is wiped as a whole object");
     /* involution */
     polyseed_crypt(&d, IN.pw);
     VASSERT(seed_eq(&d, &d0), "K8 applying the same password twice restores the seed bit for bit");
@@ -247,6 +250,7 @@ void k9_create(void) {
         VASSERT(out->features == feat, "K9 stores exactly the requested three low bits");
         VASSERT(seed_inv(out), "K9 created seed is canonical (Inv)");
         VASSERT(wipes_of_size(sizeof(gf_poly)) >= 1, "K9 polynomial temporary wiped");
+        C16_CHECK(polyseed_create, "C16 every temporary aggregate of polyseed_create is wiped as a whole object");
         VASSERT(polyseed_get_feature(out, 7) == feat && !polyseed_is_encrypted(out), "K9 queries on the new seed");
     }
     FRAME_END(&fr);
@@ -299,6 +303,9 @@ void p7_load(void) {
     }
     if (!IN.dep.alloc_fail[0])
         VASSERT(wipes_of_size(sizeof(gf_poly)) >= 1 || st == POLYSEED_ERR_FORMAT, "P7 polynomial temporary wiped");
+    /* (after a format error the polynomial was never filled in) */
+    if (st != POLYSEED_ERR_MEMORY && st != POLYSEED_ERR_FORMAT)
+        C16_CHECK(polyseed_load, "C16 every temporary aggregate of polyseed_load is wiped as a whole object");
     VASSERT(L_rand_calls == 0 && L_time_calls == 0 && L_kdf_calls == 0 && L_nfc_calls == 0 && L_nfkd_calls == 0, "P7 no other dependency");
     FRAME_END(&fr);
     /* a later call with a working allocator behaves normally */
@@ -346,7 +353,7 @@ void p7_store(void) {
         VASSERT(st == POLYSEED_OK, "P7 every canonical supported seed survives store -> load");
         VASSERT(seed_eq(out, &d0), "P7 store -> load yields an identical seed");
     }
-    VASSERT(L_mz_calls <= 3 && L_kdf_calls == 0 && L_rand_calls == 0 && L_time_calls == 0, "P7 dependency use");
+    VASSERT(L_kdf_calls == 0 && L_rand_calls == 0 && L_time_calls == 0, "P7 dependency use");
     FRAME_END(&fr);
     VEND();
 }
